@@ -431,11 +431,14 @@ def _run(ctx, tmp, server):
                           _replay(sc, k1=k1_fail, generated=sc.get("text", "")[:6000]), found_input=bool(problems))
         # -- introspected source vs the server's schema (what the property calls the source)
         if sc["source"] == "remote" and not problems:
-            if _user_part(sc["p_loaded"]) != _user_part(sc["p_server"]):
-                lost = _lost_features(_user_part(sc["p_server"]), _user_part(sc["p_loaded"]))
+            # integral floats of custom scalars come back as ints through graphql-core's own printing
+            # (ast_from_value) on the server side: not the repo's doing, compared numerically
+            srv, got_ = _sdl_numbers(_user_part(sc["p_server"])), _sdl_numbers(_user_part(sc["p_loaded"]))
+            if got_ != srv:
+                lost = _lost_features(srv, got_)
                 run.finding("C16-introspection-lossy",
                             f"remote schema not reproduced: {', '.join(lost)}; first difference "
-                            f"{_first_diff(_user_part(sc['p_loaded']), _user_part(sc['p_server']))}",
+                            f"{_first_diff(got_, srv)}",
                             _replay(sc, lost=lost, query=sc["received"]["query"]))
                 run.dist("finding_inputs", "C16-introspection-lossy")
                 for l in lost:
